@@ -45,6 +45,29 @@ def profile_ok(dtprofup, service_url, profile_url, finame="FI", trnuid="1", extr
     return ((V1HDR if v1 else V2HDR) + body).encode("utf_8")
 
 
+INVALID_KINDS = ["finame-too-long", "no-postalcode", "bad-country", "bad-enum", "date-not-a-date", "unknown-required-missing"]
+
+
+def profile_invalid(kind, *a, **kw):
+    """A well-formed answer with status 0 that is NOT a profile by the OFX data model (one defect, named by kind)."""
+    b = profile_ok(*a, **kw).decode("utf_8")
+    n = len(b)
+    if kind == "finame-too-long":
+        b = b.replace("<FINAME>", "<FINAME>" + "F" * 40)
+    elif kind == "no-postalcode":
+        b = b.replace("<POSTALCODE>1</POSTALCODE>", "")
+    elif kind == "bad-country":
+        b = b.replace("<COUNTRY>USA<", "<COUNTRY>USAX<")
+    elif kind == "bad-enum":
+        b = b.replace("<CHARTYPE>ALPHAORNUMERIC<", "<CHARTYPE>RUNES<")
+    elif kind == "date-not-a-date":
+        b = b.replace("<DTSERVER>2020", "<DTSERVER>20x0")
+    else:
+        b = b.replace("<SIGNONREALM>R</SIGNONREALM><MIN>4</MIN>", "<MIN>4</MIN>")
+    assert len(b) != n, kind
+    return b.encode("utf_8")
+
+
 def profile_uptodate(trnuid="1", v1=False):
     body = ("<OFX>" + SONRS + "<PROFMSGSRSV1><PROFTRNRS><TRNUID>%s</TRNUID><STATUS><CODE>1</CODE><SEVERITY>INFO</SEVERITY>"
             "<MESSAGE>Client is up to date</MESSAGE></STATUS></PROFTRNRS></PROFMSGSRSV1></OFX>" % trnuid)
